@@ -1089,6 +1089,17 @@ func (c *Ctx) compileSpec(sp *SpecFn) *compiledSpec {
 	}
 	if sp.Body == nil || (sp.Mode != "" && sp.Mode != c.mode.String()) {
 		cs.opaque = true
+		if sp.Content {
+			// a function of the element sequence of its slice parameters: no memory arguments (applySpec
+			// passes the array row, offset and length of each slice instead)
+			for _, t := range cs.params {
+				if st, ok := t.Underlying().(*types.Slice); ok && !scalarElem(st.Elem()) {
+					panic(elabErr{fmt.Sprintf("spec content %s: slice parameters need scalar elements", sp.Name)})
+				}
+			}
+			c.specOrder = append(c.specOrder, sp.Name)
+			return cs
+		}
 		// opaque specs may still depend on memory for slice params: give them the memory of
 		// every slice parameter element type.
 		for _, t := range cs.params {
@@ -1172,6 +1183,14 @@ func (env *Env) applySpec(sp *SpecFn, args []Expr) Val {
 	for i, a := range args {
 		v := env.elab(a)
 		v = env.coerceTo(v, cs.params[i])
+		if st, ok := cs.params[i].Underlying().(*types.Slice); ok && sp.Content {
+			u := memUse{c.arrKey(st.Elem()), c.arrSort(st.Elem())}
+			if env.memUsed != nil {
+				*env.memUsed = append(*env.memUsed, u)
+			}
+			as = append(as, fmt.Sprintf("(select %s (sbase %s))", env.mem(u.key, u.sort), v.S), fmt.Sprintf("(soff %s)", v.S), fmt.Sprintf("(slen %s)", v.S))
+			continue
+		}
 		as = append(as, v.S)
 	}
 	for _, u := range cs.memUses {
@@ -1230,12 +1249,71 @@ func (env *Env) UnfoldSpec(x Expr) (s string, err error) {
 	return fmt.Sprintf("(= %s %s)", app.S, body.S), nil
 }
 
+// contentSpecDecl declares a content function f over (row, offset, length) triples and states that it depends
+// only on the element sequence: for two applications whose other arguments agree and whose slices have the same
+// length, either the values agree or some position (a Skolem function of the arguments) holds different elements.
+func (c *Ctx) contentSpecDecl(n string, cs *compiledSpec) string {
+	intT := types.Typ[types.Int]
+	var sorts, bs1, bs2, a1, a2 []string
+	var diff []string
+	var skArgsS, skArgs []string
+	k := 0
+	for i, t := range cs.params {
+		st, ok := t.Underlying().(*types.Slice)
+		if !ok {
+			s := c.sortOf(t)
+			sorts = append(sorts, s)
+			x := fmt.Sprintf("x!%d", i)
+			bs1 = append(bs1, fmt.Sprintf("(%s %s)", x, s))
+			a1, a2 = append(a1, x), append(a2, x)
+			skArgsS, skArgs = append(skArgsS, s), append(skArgs, x)
+			continue
+		}
+		row := fmt.Sprintf("(Array %s %s)", c.idx(), c.sortOf(st.Elem()))
+		sorts = append(sorts, row, c.idx(), c.idx())
+		ra, rb, oa, ob, l := fmt.Sprintf("a!%d", i), fmt.Sprintf("b!%d", i), fmt.Sprintf("oa!%d", i), fmt.Sprintf("ob!%d", i), fmt.Sprintf("l!%d", i)
+		bs1 = append(bs1, fmt.Sprintf("(%s %s) (%s %s) (%s %s)", ra, row, oa, c.idx(), l, c.idx()))
+		bs2 = append(bs2, fmt.Sprintf("(%s %s) (%s %s)", rb, row, ob, c.idx()))
+		a1, a2 = append(a1, ra, oa, l), append(a2, rb, ob, l)
+		skArgsS = append(skArgsS, row, row, c.idx(), c.idx(), c.idx())
+		skArgs = append(skArgs, ra, rb, oa, ob, l)
+		k++
+		_ = diff
+	}
+	res := c.sortOf(cs.result)
+	out := fmt.Sprintf("(declare-fun %s (%s) %s)\n", n, strings.Join(sorts, " "), res)
+	if k == 0 {
+		return out
+	}
+	// one Skolem position per slice parameter
+	var alts []string
+	for i, t := range cs.params {
+		if _, ok := t.Underlying().(*types.Slice); !ok {
+			continue
+		}
+		sk := fmt.Sprintf("%s!sk%d", n, i)
+		out += fmt.Sprintf("(declare-fun %s (%s) %s)\n", sk, strings.Join(skArgsS, " "), c.idx())
+		p := fmt.Sprintf("(%s %s)", sk, strings.Join(skArgs, " "))
+		ra, rb, oa, ob, l := fmt.Sprintf("a!%d", i), fmt.Sprintf("b!%d", i), fmt.Sprintf("oa!%d", i), fmt.Sprintf("ob!%d", i), fmt.Sprintf("l!%d", i)
+		alts = append(alts, and(c.cmp("<=", intT, c.idxLit(0), p), c.cmp("<", intT, p, l),
+			fmt.Sprintf("(not (= (select %s %s) (select %s %s)))", ra, c.binopIdx("+", oa, p), rb, c.binopIdx("+", ob, p))))
+	}
+	f1 := fmt.Sprintf("(%s %s)", n, strings.Join(a1, " "))
+	f2 := fmt.Sprintf("(%s %s)", n, strings.Join(a2, " "))
+	out += fmt.Sprintf("(assert (forall (%s %s) (! (or (= %s %s) %s) :pattern (%s %s))))\n", strings.Join(bs1, " "), strings.Join(bs2, " "), f1, f2, strings.Join(alts, " "), f1, f2)
+	return out
+}
+
 func (s *SpecEnv) emit(c *Ctx) string {
 	var sb strings.Builder
 	for _, n := range c.specOrder {
 		cs := c.cspecs[n]
 		// a spec function that the contract unfolds by hand is left uninterpreted in this context: the
 		// explicit instances are all the solver needs, and recursive definitions make it diverge
+		if cs.opaque && cs.sp.Content {
+			sb.WriteString(c.contentSpecDecl(n, cs))
+			continue
+		}
 		if cs.opaque || c.handUnfolded[n] {
 			var ps []string
 			for _, t := range cs.params {
